@@ -50,9 +50,14 @@ theorem fact_getMoreSpecificHostname : Generated.Tls.getMoreSpecificHostnameBody
 
 theorem fact_secret_resolution : Generated.Tls.secretResolveCases = ["!exist", "secret.Type != apiv1.SecretTypeTLS", "default"] := by facts
 
-theorem fact_mismatch_loop : Generated.Tls.mismatchLoopBody =
-    ["if backendRef.BackendTLSPolicy == nil { if referencePolicy != nil { mismatch = true break } continue }",
-     "if referencePolicy == nil { referencePolicy = backendRef.BackendTLSPolicy } else if checkPoliciesEqual(backendRef.BackendTLSPolicy.Source, referencePolicy.Source) { mismatch = true break }"] ∧
+/-- the loop deciding whether the backends of a rule agree (fix e38b1f9): every backend is compared with the first,
+CA refs are namespaced, wellKnown is compared by value. Reverting the fix breaks this lemma. -/
+theorem fact_mismatch_loop :
+    Generated.Tls.mismatchLoopBody =
+      ["for i := 1; i < len(backendRefs); i++",
+       "if policiesDiffer(backendRefs[i].BackendTLSPolicy, backendRefs[0].BackendTLSPolicy) { mismatch = true break }"] ∧
+    Generated.Tls.mismatchCompare =
+      "policiesDiffer := func(p1, p2 *BackendTLSPolicy) bool { if p1 == nil || p2 == nil { return p1 != p2 } val1, val2 := p1.Source.Spec.Validation, p2.Source.Spec.Validation return !slices.Equal(val1.CACertificateRefs, val2.CACertificateRefs) || (len(val1.CACertificateRefs) > 0 && p1.Source.Namespace != p2.Source.Namespace) || (val1.WellKnownCACertificates == nil) != (val2.WellKnownCACertificates == nil) || (val1.WellKnownCACertificates != nil && *val1.WellKnownCACertificates != *val2.WellKnownCACertificates) || val1.Hostname != val2.Hostname }" ∧
     Generated.Tls.mismatchGuard = "len(backendRefs) > 1" := by facts
 
 theorem fact_proxy_tls :
@@ -298,154 +303,131 @@ theorem valid_policy_ca (cms : List CMObj) (p : BTP) (r : CARef) (hv : p.valid c
 
 /-! ### a rule whose backends disagree on TLS policy serves none of them -/
 
-/-- what "the backends of a rule disagree" means: one has a policy and another has none, or two carry
-policies that differ in the ConfigMap they reference (name AND namespace), the wellKnown setting or the
-hostname (by VALUE) -/
-def configDiffers (p q : BTP) : Bool :=
-  p.refs ≠ q.refs || (!p.refs.isEmpty && p.ns ≠ q.ns) || p.wk ≠ q.wk || p.hostname ≠ q.hostname
+/-- what "the backends of a rule disagree" means (stated independently of the code's loop): two backends of the
+rule, at ANY positions, of which one has a policy and the other has none, or whose policies differ in the ConfigMap they
+reference (name AND namespace), the wellKnown setting or the hostname, by VALUE -/
+def specDiffer : Option BTP → Option BTP → Bool
+  | none, none => false
+  | some p, some q =>
+    p.refs ≠ q.refs || (!p.refs.isEmpty && p.ns ≠ q.ns) || p.wk ≠ q.wk || p.hostname ≠ q.hostname
+  | _, _ => true
 
-/-- policy objects are identified by `id`: the same object has the same fields -/
-def IdsConsistent (bs : List (Option BTP)) : Prop :=
-  ∀ p q, some p ∈ bs → some q ∈ bs → p.id = q.id → p.wk = q.wk
+def Disagree (bs : List (Option BTP)) : Prop := ∃ x ∈ bs, ∃ y ∈ bs, specDiffer x y = true
 
-/-- all policies of the rule live in one namespace (always true unless the rule has cross-namespace backendRefs) -/
-def OneNamespace (bs : List (Option BTP)) : Prop :=
-  ∀ p q, some p ∈ bs → some q ∈ bs → p.ns = q.ns
+theorem specDiffer_eq (x y : Option BTP) : specDiffer x y = policiesDiffer x y := by
+  cases x <;> cases y <;> rfl
 
-def disagreesWith (r : BTP) : Option BTP → Bool
-  | none => true
-  | some p => configDiffers p r
+theorem specDiffer_self (x : Option BTP) : specDiffer x x = false := by
+  rw [specDiffer_eq]; exact policiesDiffer_self x
 
-def disagree : List (Option BTP) → Bool
-  | [] => false
-  | none :: rest => rest.any (·.isSome)
-  | some r :: rest => rest.any (disagreesWith r)
+theorem specDiffer_symm (x y : Option BTP) : specDiffer x y = specDiffer y x := by
+  cases x <;> cases y <;> simp [specDiffer]
+  rename_i p q
+  have e1 : (p.refs = q.refs) = (q.refs = p.refs) := propext ⟨Eq.symm, Eq.symm⟩
+  have e2 : (p.ns = q.ns) = (q.ns = p.ns) := propext ⟨Eq.symm, Eq.symm⟩
+  have e3 : (p.wk = q.wk) = (q.wk = p.wk) := propext ⟨Eq.symm, Eq.symm⟩
+  have e4 : (p.hostname = q.hostname) = (q.hostname = p.hostname) := propext ⟨Eq.symm, Eq.symm⟩
+  by_cases h : p.refs = q.refs
+  · simp [e2, e3, e4, h]
+  · have h' : ¬ q.refs = p.refs := fun e => h e.symm
+    simp [h, h']
 
-/-- FULL STRENGTH IS FALSE on the current code, first gap: `[no policy, P]` disagrees but is not detected
-(DESIGN §7 row 17; reproduced on the real pipeline: known finding
-`C16:btp-mismatch-undetected-when-first-backend-has-no-policy`), so both backends stay valid. -/
-def witnessP : BTP :=
-  { id := 1, ns := "default".toList, name := "pol-p".toList, ts := 5, targets := ["svc-b".toList],
-    hostname := "b.example.com".toList, hostOK := true, refs := [⟨[], "ConfigMap".toList, "ca-1".toList⟩],
-    wk := none, full := false }
+/-- agreeing with the first backend is transitive: two backends that both agree with the first agree with each other -/
+theorem specDiffer_trans {x y f : Option BTP} (hx : specDiffer x f = false) (hy : specDiffer y f = false) :
+    specDiffer x y = false := by
+  cases x <;> cases y <;> cases f <;> simp_all [specDiffer]
 
-theorem mismatch_invalidates_all_false :
-    disagree [none, some witnessP] = true ∧ mismatch [none, some witnessP] = false ∧
-    validateRule [⟨none, true⟩, ⟨some witnessP, true⟩] = [⟨none, true⟩, ⟨some witnessP, true⟩] ∧
-    -- whereas the reverse order is caught
-    mismatch [some witnessP, none] = true ∧
-    (validateRule [⟨some witnessP, true⟩, ⟨none, true⟩]).all (·.valid = false) = true := by decide +kernel
+/-- the loop detects EXACTLY the disagreements, whatever the order of the backends -/
+theorem mismatch_iff_disagree (bs : List (Option BTP)) : mismatch bs = true ↔ Disagree bs := by
+  cases bs with
+  | nil => simp [mismatch, Disagree]
+  | cons f rest =>
+    simp only [mismatch, List.any_eq_true]
+    constructor
+    · rintro ⟨x, hx, hd⟩
+      exact ⟨x, List.mem_cons_of_mem _ hx, f, List.mem_cons_self, by rw [specDiffer_eq]; exact hd⟩
+    · rintro ⟨x, hx, y, hy, hd⟩
+      -- if neither x nor y differed from the first, they would agree with each other
+      by_cases hxf : specDiffer x f = true
+      · rcases List.mem_cons.mp hx with e | e
+        · subst e; rw [specDiffer_self] at hxf; exact absurd hxf (by simp)
+        · exact ⟨x, e, by rw [← specDiffer_eq]; exact hxf⟩
+      · by_cases hyf : specDiffer y f = true
+        · rcases List.mem_cons.mp hy with e | e
+          · subst e; rw [specDiffer_self] at hyf; exact absurd hyf (by simp)
+          · exact ⟨y, e, by rw [← specDiffer_eq]; exact hyf⟩
+        · have := specDiffer_trans (Bool.eq_false_iff.mpr hxf) (Bool.eq_false_iff.mpr hyf)
+          rw [this] at hd; exact absurd hd (by simp)
 
-/-- second gap: two policies that name ConfigMaps of the same NAME in different namespaces are compared as equal
-(the comparison looks at the un-namespaced `caCertificateRefs`), and the location then verifies every backend
-against the FIRST policy's bundle (reproduced on the real pipeline with cross-namespace backendRefs: known finding
-`C16:btp-same-named-configmaps-of-different-namespaces-treated-as-equal`). -/
-def witnessPOther : BTP := { witnessP with id := 2, ns := "team-a".toList }
-
-def witnessCMs : List CMObj :=
-  [⟨"default".toList, "ca-1".toList, true, true, "CA-OF-DEFAULT".toList⟩,
-   ⟨"team-a".toList, "ca-1".toList, true, true, "CA-OF-TEAM-A".toList⟩]
-
-theorem mismatch_ignores_configmap_namespace :
-    disagree [some witnessP, some witnessPOther] = true ∧ mismatch [some witnessP, some witnessPOther] = false ∧
-    (proxyTLS ([some witnessP, some witnessPOther].map (convertBackendTLS witnessCMs))).map trustedCert =
-      some (bundleFileName (certBundleId ("default".toList, "ca-1".toList))) ∧
-    (convertBackendTLS witnessCMs (some witnessPOther)).map trustedCert =
-      some (bundleFileName (certBundleId ("team-a".toList, "ca-1".toList))) ∧
-    -- the repaired comparison tells them apart
-    mismatchRepaired [some witnessP, some witnessPOther] = true := by decide +kernel
-
-/-- policies that differ by value are reported as differing by the code (which compares the wellKnown field
-by pointer, i.e. is stricter) — provided they live in one namespace -/
-theorem configDiffers_imp_policiesDiffer (p q : BTP) (hid : p.id = q.id → p.wk = q.wk) (hns : p.ns = q.ns)
-    (h : configDiffers p q = true) : policiesDiffer p q = true := by
-  unfold configDiffers at h
-  unfold policiesDiffer
-  simp only [Bool.or_eq_true, decide_eq_true_eq, ne_eq, Bool.and_eq_true, Bool.not_eq_true'] at h ⊢
-  rcases h with ((h | h) | h) | h
-  · exact Or.inl (Or.inl h)
-  · exact absurd hns h.2
-  · refine Or.inl (Or.inr ?_)
-    cases hp : p.wk <;> cases hq : q.wk <;> simp_all
-  · exact Or.inr h
-
-theorem configDiffers_eq_policiesDifferR (p q : BTP) : configDiffers p q = policiesDifferR p q := rfl
-
-/-- `mismatch_invalidates_all_partial`: when the FIRST backend of a rule carries a policy and the policies of the
-rule live in one namespace, every disagreement is detected and every backend of the rule becomes invalid. -/
-theorem mismatch_invalidates_all_partial (p : BTP) (rest : List BRef) (v : Bool)
-    (hids : IdsConsistent (some p :: rest.map (·.pol))) (hns : OneNamespace (some p :: rest.map (·.pol)))
-    (hd : disagree (some p :: rest.map (·.pol)) = true) :
-    ∀ b ∈ validateRule (⟨some p, v⟩ :: rest), b.valid = false := by
-  have hne : rest ≠ [] := by
-    intro h; simp [h, disagree] at hd
-  have hlen : (⟨some p, v⟩ :: rest : List BRef).length > 1 := by
-    cases rest with
-    | nil => exact absurd rfl hne
-    | cons _ _ => simp
-  have hm : mismatch (some p :: rest.map (·.pol)) = true := by
-    rw [mismatch_head_some]
-    simp only [disagree] at hd
-    rw [List.any_eq_true] at hd ⊢
-    obtain ⟨x, hx, hxd⟩ := hd
-    refine ⟨x, hx, ?_⟩
-    cases x with
-    | none => rfl
-    | some q =>
-      have hid := hids q p (List.mem_cons_of_mem _ hx) List.mem_cons_self
-      have hn := hns q p (List.mem_cons_of_mem _ hx) List.mem_cons_self
-      exact configDiffers_imp_policiesDiffer q p hid hn hxd
+/-- `mismatch_invalidates_all` — FULL STRENGTH: a rule whose backends disagree on TLS policy (any two of them, in any
+order, same or different namespaces) has ALL its backends invalid: it serves none of them. -/
+theorem mismatch_invalidates_all (bs : List BRef) (hd : Disagree (bs.map (·.pol))) :
+    ∀ b ∈ validateRule bs, b.valid = false := by
+  have hm : mismatch (bs.map (·.pol)) = true := (mismatch_iff_disagree _).mpr hd
+  have hlen : bs.length > 1 := by
+    match bs, hm with
+    | [], h => simp [mismatch] at h
+    | [_], h => simp [mismatch] at h
+    | _ :: _ :: _, _ => simp
+  have hc : (decide (bs.length > 1) && mismatch (bs.map (·.pol))) = true := by
+    rw [hm]; simpa using hlen
   intro b hb
-  have hm' : mismatch (List.map (·.pol) (⟨some p, v⟩ :: rest : List BRef)) = true := by simpa using hm
-  have hc : (decide ((⟨some p, v⟩ :: rest : List BRef).length > 1) &&
-      mismatch (List.map (·.pol) (⟨some p, v⟩ :: rest : List BRef))) = true := by
-    rw [hm']; simpa using hlen
   unfold validateRule at hb
   rw [if_pos hc] at hb
   simp only [List.mem_map] at hb
   obtain ⟨b', _, rfl⟩ := hb
   rfl
 
-/-- the hypotheses are satisfiable by a rule that really disagrees -/
-example : ∀ b ∈ validateRule [⟨some witnessP, true⟩, ⟨none, true⟩, ⟨some witnessP, true⟩], b.valid = false :=
-  mismatch_invalidates_all_partial witnessP [⟨none, true⟩, ⟨some witnessP, true⟩] true
-    (by intro p q hp hq _; simp at hp hq; rcases hp with rfl | rfl <;> rcases hq with rfl | rfl <;> rfl)
-    (by intro p q hp hq; simp at hp hq; rcases hp with rfl | rfl <;> rcases hq with rfl | rfl <;> rfl)
-    (by decide +kernel)
+/-- and a rule whose backends agree is left alone -/
+theorem agreeing_rule_untouched (bs : List BRef) (ha : ¬ Disagree (bs.map (·.pol))) : validateRule bs = bs := by
+  have hm : mismatch (bs.map (·.pol)) = false := by
+    cases h : mismatch (bs.map (·.pol))
+    · rfl
+    · exact absurd ((mismatch_iff_disagree _).mp h) ha
+  simp [validateRule, hm]
 
-/-- the repaired loop (candidate fix) detects exactly the disagreements, whatever the order and the namespaces -/
-theorem mismatchRepaired_complete (bs : List (Option BTP)) : mismatchRepaired bs = disagree bs := by
-  cases bs with
-  | nil => rfl
-  | cons b rest =>
-    cases b with
-    | none => rfl
-    | some r =>
-      have hf : differsFromR r = disagreesWith r := by
-        funext x; cases x <;> rfl
-      simp only [disagree, mismatchRepaired, hf]
+def witnessP : BTP :=
+  { id := 1, ns := "default".toList, name := "pol-p".toList, ts := 5, targets := ["svc-b".toList],
+    hostname := "b.example.com".toList, hostOK := true, refs := [⟨[], "ConfigMap".toList, "ca-1".toList⟩],
+    wk := none, full := false }
+def witnessPOther : BTP := { witnessP with id := 2, ns := "team-a".toList }
+def witnessCMs : List CMObj :=
+  [⟨"default".toList, "ca-1".toList, true, true, "CA-OF-DEFAULT".toList⟩,
+   ⟨"team-a".toList, "ca-1".toList, true, true, "CA-OF-TEAM-A".toList⟩]
 
-/-- with the repaired loop every disagreement invalidates every backend of the rule -/
-theorem mismatch_invalidates_all_repaired (bs : List (Option BTP)) (hd : disagree bs = true) :
-    mismatchRepaired bs = true := by rw [mismatchRepaired_complete]; exact hd
+/-- non-vacuity: both orders of {no policy, P}, and same-named ConfigMaps of two namespaces, disagree and are
+invalidated -/
+example : Disagree [none, some witnessP] ∧ Disagree [some witnessP, none] ∧ Disagree [some witnessP, some witnessPOther] :=
+  ⟨⟨none, by simp, some witnessP, by simp, by decide +kernel⟩, ⟨none, by simp, some witnessP, by simp, by decide +kernel⟩,
+   ⟨some witnessP, by simp, some witnessPOther, by simp, by decide +kernel⟩⟩
 
-/-- the current loop is at least as strict as the repaired one when the first backend has a policy and the
-policies of the rule live in one namespace (it additionally separates two policy objects that both set wellKnown) -/
-theorem mismatch_repaired_agrees (p : BTP) (bs : List (Option BTP)) (hids : IdsConsistent (some p :: bs))
-    (hns : OneNamespace (some p :: bs)) (h : mismatchRepaired (some p :: bs) = true) :
-    mismatch (some p :: bs) = true := by
-  rw [mismatch_head_some]
-  simp only [mismatchRepaired] at h
-  rw [List.any_eq_true] at h ⊢
-  obtain ⟨x, hx, hxd⟩ := h
-  refine ⟨x, hx, ?_⟩
-  cases x with
-  | none => rfl
-  | some q =>
-    have hid := hids q p (List.mem_cons_of_mem _ hx) List.mem_cons_self
-    have hn := hns q p (List.mem_cons_of_mem _ hx) List.mem_cons_self
-    exact configDiffers_imp_policiesDiffer q p hid hn hxd
+example : (validateRule [⟨none, true⟩, ⟨some witnessP, true⟩]).all (·.valid = false) = true ∧
+    (validateRule [⟨some witnessP, true⟩, ⟨none, true⟩]).all (·.valid = false) = true ∧
+    (validateRule [⟨some witnessP, true⟩, ⟨some witnessPOther, true⟩]).all (·.valid = false) = true ∧
+    validateRule [⟨some witnessP, true⟩, ⟨some witnessP, false⟩] = [⟨some witnessP, true⟩, ⟨some witnessP, false⟩] := by
+  decide +kernel
 
-example : disagree [some witnessP, none] = true := by decide +kernel
+/-! #### regression detectors: the loop before fix e38b1f9 (`mismatchPre`) does NOT have the property -/
+
+/-- PRE-FIX, first gap (DESIGN §7 row 17; was known finding `C16:btp-mismatch-undetected-when-first-backend-has-no-policy`,
+fixed by e38b1f9): `[no policy, P]` disagrees but the old loop does not notice; the reverse order was caught. -/
+theorem mismatch_invalidates_all_false :
+    mismatchPre [none, some witnessP] = false ∧
+    validateRulePre [⟨none, true⟩, ⟨some witnessP, true⟩] = [⟨none, true⟩, ⟨some witnessP, true⟩] ∧
+    mismatchPre [some witnessP, none] = true ∧
+    -- the current loop catches both
+    mismatch [none, some witnessP] = true ∧ mismatch [some witnessP, none] = true := by decide +kernel
+
+/-- PRE-FIX, second gap (was known finding `C16:btp-same-named-configmaps-of-different-namespaces-treated-as-equal`,
+fixed by e38b1f9): two policies naming ConfigMaps of the same NAME in different namespaces compared equal, and the
+location then verifies every backend against the FIRST policy's bundle. -/
+theorem mismatch_ignores_configmap_namespace :
+    mismatchPre [some witnessP, some witnessPOther] = false ∧
+    (proxyTLS ([some witnessP, some witnessPOther].map (convertBackendTLS witnessCMs))).map trustedCert =
+      some (bundleFileName (certBundleId ("default".toList, "ca-1".toList))) ∧
+    (convertBackendTLS witnessCMs (some witnessPOther)).map trustedCert =
+      some (bundleFileName (certBundleId ("team-a".toList, "ca-1".toList))) ∧
+    -- the current loop tells them apart
+    mismatch [some witnessP, some witnessPOther] = true := by decide +kernel
 
 end NGF.Tls
